@@ -337,9 +337,11 @@ def build (js : Bytes) (p : Parser) (numTokens : Nat) : Nat → BState → JResu
               match ts, ds with
               | top :: _, dtop :: _ =>
                 let b := { b with tokenStack := ts, dataStack := ds }
-                if top.type == .object && !(t.type == .primitive || t.type == .string) then .error .key else
                 let b :=
-                  if top.type == .object then
+                  if top.type == .object && !(t.type == .primitive || t.type == .string) then
+                    -- a container in key position: an alias of the enclosing object's slot
+                    { b with dataStack := dtop :: b.dataStack }
+                  else if top.type == .object then
                     let k := jsonUnescape (substr js t.start t.stop)
                     -- `compound[k]` default-inserts
                     let tree := updateAt (dtop ++ [.key k]) id b.tree
